@@ -580,6 +580,7 @@ def plan_components(prop, tier, seed, t0):
         cases += gen.gen_dl_cases(rnd, tier)
     if prop in ("C17", "C19"):
         cases += gen.gen_jac_cases(rnd, tier)
+        cases += gen.gen_gate_cases(rnd, tier)
     merged = run_cases(prop, cases, ck, None, spec="TV_Comp")
     if prop == "C19":
         # full searches and index preparation on real stores, long and short inputs alternating
